@@ -22,7 +22,7 @@ def plan(tier, seed):
 
 def thresholds(tier):
   t = {"objects_roundtripped": 20000, "hierarchies": 400, "slice_objects": 500, "field_objects": 1000,
-       "list_element_objects": 3000, "method_port_objects": 200, "interface_objects": 500, "reelaborations": 400, "lock_unlock_histories": 300}
+       "list_element_objects": 3000, "method_port_objects": 200, "interface_objects": 500, "reelaborations": 400, "lock_unlock_histories": 300, "list_construction_designs": 60}
   if tier == "thorough":
     t = {k: v * 12 for k, v in t.items()}
   return t
@@ -352,9 +352,78 @@ class Many(Component):
     G.unload(mod)
 
 
+LISTBUILD_SRC = """
+from pymtl3 import *
+class LReg(Component):
+  def construct(s):
+    s.in_ = InPort(8); s.out = OutPort(8)
+    @update_ff
+    def ff(): s.out <<= s.in_
+class LTop(Component):
+  def construct(s, how, n):
+    s.in_ = InPort(8); s.out = OutPort(8)
+    if how == "assign-complete":
+      s.regs = [LReg() for _ in range(n)]
+    elif how == "plus-equal":
+      s.regs = []
+      for i in range(n): s.regs += [LReg()]
+    elif how == "plus-equal-wires":
+      s.regs = [LReg() for _ in range(n)]
+      s.ws = [Wire(8)]
+      for i in range(n): s.ws += [Wire(8)]
+    elif how == "append-after":
+      s.regs = [LReg()]
+      for i in range(n - 1): s.regs.append(LReg())
+    elif how == "setitem-after":
+      s.regs = [LReg()] + [None] * (n - 1)
+      for i in range(1, n): s.regs[i] = LReg()
+    s.regs[0].in_ //= s.in_
+    for i in range(1, n): s.regs[i].in_ //= s.regs[i - 1].out
+    s.out //= s.regs[n - 1].out
+"""
+
+
+def run_listbuild_case(sh, case):
+  """lists of hardware objects built up in several statements: with s.x += [obj] (the field is assigned again and again) every
+  element is named; elements slipped into an already assigned list (append, item assignment) can not be seen by the naming
+  hook - the design is refused, or every object still has a name that evaluates back"""
+  from vlib import specgen as G
+  rng = sh.rng("listbuild", case)
+  how = rng.choice(["assign-complete", "plus-equal", "plus-equal", "plus-equal-wires", "append-after", "setitem-after"])
+  n = rng.randrange(2, 6)
+  mod = G.load_source(LISTBUILD_SRC, "c14lb")
+  try:
+    try:
+      top = mod.LTop(how, n); top.elaborate()
+    except Exception as e:
+      sh.count("listbuild:" + how + ":refused")
+      if how in ("assign-complete", "plus-equal", "plus-equal-wires"):
+        sh.violation("legal-list-construction-refused", {"how": how, "n": n, "error": f"{type(e).__name__}: {str(e)[:200]}"}, case=("listbuild", case))
+      return
+    sh.count("listbuild:" + how + ":elaborated"); sh.count("list_construction_designs")
+    objs = top.get_all_object_filter(lambda x: True)
+    comps = [o for o in objs if type(o).__name__ == "LReg"]
+    if len(comps) != n:
+      sh.violation("hardware-object-of-a-list-is-missing-from-the-hierarchy", {"how": how, "n": n, "components_found": len(comps)}, case=("listbuild", case)); return
+    for o in objs:
+      r = repr(o); sh.count("objects_roundtripped")
+      try: back = eval(r, {"s": top})
+      except Exception as e:
+        sh.violation("eval-of-name-raised", {"name": r[:120], "error": repr(e)[:120], "stream": "listbuild", "how": how}, case=("listbuild", case)); return
+      if back is not o:
+        sh.violation("eval-of-name-yields-other-object", {"name": r, "stream": "listbuild", "how": how}, case=("listbuild", case)); return
+    for c_ in comps:
+      if not hasattr(c_, "in_"):
+        sh.violation("component-of-a-list-was-never-constructed", {"how": how, "component": repr(c_)[:100]}, case=("listbuild", case)); return
+  finally:
+    G.unload(mod)
+
+
 def run_shard(sh):
   for case in range(4):
     if sh.only is None: run_adapter_case(sh, case)
+  for case in range(8):
+    if sh.only is None: run_listbuild_case(sh, sh.idx * 100 + case)
   for case in range(sh.params["cases"]):
     if sh.only is not None and str(case) != str(sh.only).strip('"'):
       continue
